@@ -93,6 +93,10 @@ func (s *Search) And(field, operator string, value interface{}) *Search {
 		return s
 	}
 
+	// the index is read so the DB lock is needed as for DB.Search
+	s.db.RLock()
+	defer s.db.RUnlock()
+
 	return s.db.search(s.object, field, operator, value, s.fields)
 }
 
@@ -102,6 +106,10 @@ func (s *Search) Or(field, operator string, value interface{}) *Search {
 	if s.err != nil {
 		return s
 	}
+
+	// the index is read so the DB lock is needed as for DB.Search
+	s.db.RLock()
+	defer s.db.RUnlock()
 
 	new := s.db.search(s.object, field, operator, value, nil)
 	// the result of the new search may be a sub-slice of the index
@@ -131,6 +139,14 @@ func (s *Search) Len() int {
 // Iterator returns an Iterator convenient to iterate over
 // the objects resulting from the search
 func (s *Search) Iterator() (it *iterator, err error) {
+	s.db.RLock()
+	defer s.db.RUnlock()
+
+	return s.iterator()
+}
+
+// iterator must be called with the DB lock held
+func (s *Search) iterator() (it *iterator, err error) {
 	var sch *Schema
 
 	if s.err != nil {
@@ -277,7 +293,7 @@ func (s *Search) collect() (out []Object, err error) {
 		return nil, s.err
 	}
 
-	if it, err = s.Iterator(); err != nil {
+	if it, err = s.iterator(); err != nil {
 		return
 	}
 
